@@ -254,7 +254,7 @@ func sites(o *Op, parentType typeResolver) []Reform {
 		p := append([]int(nil), path...)
 		isRoot := len(path) == 0
 		// the fragments directly below _entities decide which representations are sent: that list is never shortened
-		isEntityList := len(path) == 1 && o.Root[path[0]].Kind == kField && o.Root[path[0]].Name == "_entities"
+		isEntityList := len(o.Fed) > 0 && len(path) > 0 && parentType(o, path) == "_Entity"
 		hasTypename := false
 		for _, s := range list {
 			if s.Kind == kField && s.Name == "__typename" {
@@ -304,7 +304,6 @@ func sites(o *Op, parentType typeResolver) []Reform {
 		}
 	}
 	walk(nil, o.Root)
-	_ = parentType
 	return out
 }
 
